@@ -22,10 +22,11 @@ def resampling_s2rio(name: str) -> rasterio.warp.Resampling:
     """
     Convert from string to rasterio.warp.Resampling enum, raises ValueError on bad input.
     """
-    try:
-        return getattr(rasterio.warp.Resampling, name.lower())
-    except AttributeError:
-        raise ValueError(f"Bad resampling parameter: {name}") from None
+    # members only: ``getattr`` alone also finds other attributes of the enum class ("mro", "__doc__", ...)
+    rs = rasterio.warp.Resampling.__members__.get(name.lower())
+    if rs is None:
+        raise ValueError(f"Bad resampling parameter: {name}")
+    return rs
 
 
 def is_resampling_nn(resampling: Resampling) -> bool:
